@@ -14,4 +14,6 @@ CONSTANTS
   MsgKinds = {"a"}
   WithCut = TRUE
   WithFormat = TRUE
+  WithOutage = TRUE
+  Retries = 2
 CHECK_DEADLOCK FALSE
